@@ -82,7 +82,13 @@ class Models:
         raise Unsupported('str * int')
 
     def tyset_union(self, eng, a, b, st):
-        raise Unsupported('type-set union (plugin)')
+        for p in self.plugins:
+            if hasattr(p, 'tyset'):
+                sa, sb = p.tyset(eng, a), p.tyset(eng, b)
+                if sa is not None and sb is not None:
+                    from .plug_types import set_union
+                    return VTySet(set_union(sa, sb))
+        return None
 
     def contains(self, eng, container, x, st):
         for p in self.plugins:
@@ -878,6 +884,15 @@ class Models:
             if isinstance(itv, Raise):
                 out.append((s, itv))
                 continue
+            handled = None
+            for p in self.plugins:
+                if hasattr(p, 'set_comprehension'):
+                    handled = p.set_comprehension(eng, e, g, s, itv, kind)
+                    if handled is not None:
+                        break
+            if handled is not None:
+                out.extend(handled)
+                continue
             for s2, d in eng.iter_desc(itv, s, e):
                 if isinstance(d, Raise):
                     out.append((s2, d))
@@ -1196,6 +1211,11 @@ class Models:
                 return t
         if hasattr(v, 't') and v.t.sort() == sort:
             return v.t
+        for p in self.plugins:
+            if hasattr(p, 'to_term'):
+                t = p.to_term(eng, v, sort, st)
+                if t is not None:
+                    return t
         raise Unsupported('argument %s where sort %s is expected' % (
             type(v).__name__, sort))
 
